@@ -7,6 +7,7 @@ import GA.Drv.HistE
 import GA.Drv.HexE
 import GA.Drv.HeapE
 import GA.Drv.SerdeE
+import GA.Drv.CmpE
 open GA.Drv
 
 def answerLine (line : String) : String :=
@@ -25,6 +26,7 @@ def answerLine (line : String) : String :=
       | "hex" => HexE.answer kv
       | "heap" => HeapE.answer kv
       | "serde" => SerdeE.answer kv
+      | "cmp" => CmpE.answer kv
       | _ => "bad-engine"
     s!"{seq} {body}"
   | _ => "bad-line"
